@@ -198,11 +198,11 @@ pub fn run(ctx: &Ctx) -> Report {
             check(&obs, rep, &d);
         });
         rep.merge(r);
-        if ctx.only.is_none() {
+        if ctx.strict() {
             rep.require("responses_with_multi_packet_message", 1);
         }
     }
-    if !ctx.miri && ctx.only.is_none() {
+    if ctx.strict() {
         rep.require("outbound_packets_checked", 1000);
         rep.require("responses_wrapping_around", 2);
         rep.require("multi_packet_requests", 1);
